@@ -35,6 +35,8 @@ type command struct {
 	search bool
 	// This counter indicates the number of results that still need to be produced.
 	ctr *int64
+	// When searching: the number of result slots already claimed by successful workers.
+	slot *int64
 	// This channel is used to signal that the counter was modified
 	ctrChanged chan<- struct{}
 	// This is the index we evaluate our function at, when not searching
@@ -48,7 +50,7 @@ type command struct {
 //
 // We need to keep searching for successful queries of f while *ctr > 0.
 // When we find a successful result, we decrement *ctr.
-func workerSearch(results []interface{}, ctrChanged chan<- struct{}, f func(int) interface{}, ctr *int64) {
+func workerSearch(results []interface{}, ctrChanged chan<- struct{}, f func(int) interface{}, ctr *int64, slot *int64) {
 	for atomic.LoadInt64(ctr) > 0 {
 		yield("ws:loaded")
 		res := f(0)
@@ -56,11 +58,17 @@ func workerSearch(results []interface{}, ctrChanged chan<- struct{}, f func(int)
 			continue
 		}
 		yield("ws:before-dec")
-		i := atomic.AddInt64(ctr, -1)
+		// Claim a slot first and store the result BEFORE announcing it through the counter:
+		// the caller returns as soon as it reads zero there, so a result written after the
+		// decrement could still be missing (nil) when Search hands the slice back.
+		i := atomic.AddInt64(slot, 1) - 1
 		yield("ws:after-dec")
-		if i >= 0 {
-			results[i] = res
+		if i >= int64(len(results)) {
+			// every slot is already claimed: this surplus result is not needed
+			return
 		}
+		results[i] = res
+		atomic.AddInt64(ctr, -1)
 		yield("ws:before-send")
 		ctrChanged <- struct{}{}
 		yield("ws:after-send")
@@ -72,7 +80,7 @@ func worker(commands <-chan command) {
 	for c := range commands {
 		yield("w:got-cmd")
 		if c.search {
-			workerSearch(c.results, c.ctrChanged, c.f, c.ctr)
+			workerSearch(c.results, c.ctrChanged, c.f, c.ctr, c.slot)
 		} else {
 			c.results[c.i] = c.f(c.i)
 			yield("w:before-dec")
@@ -149,9 +157,11 @@ func (p *Pool) Search(count int, f func() interface{}) []interface{} {
 	// (at most one per result, plus one per worker that was already past its last counter
 	// check): otherwise such a worker blocks forever on its send and is lost to the pool.
 	ctrChanged := make(chan struct{}, count+p.workerCount)
+	slot := int64(0)
 	cmd := command{
 		search:     true,
 		ctr:        &ctr,
+		slot:       &slot,
 		ctrChanged: ctrChanged,
 		f:          func(i int) interface{} { return f() },
 		results:    results,
